@@ -22,6 +22,26 @@ CLAIMS = {
             "For each of the 67 registered commands hundreds of generated well-formed vectors (all option combinations/orders, binary strings, boundary numbers, duplicate keys, random letter case, optional SELECT) are served through the real connection loop on a scripted connection with a recording handler; the call log must equal the grammar's expectation and the reply must be the handler's result. Unknown names and application executors are covered by two more generators. Exploration: argument space is unbounded.",
             "The grammar (internal/cmdspec) was written from the Redis command reference and redis/handler.go, not from the executors; combinations whose expected handler arguments are not defined by the interface (ZRANGE BYSCORE REV, KEEPTTL+EX, ZADD NX+GT) are not generated. EXPIRE's instant is checked as an interval bracketed by two clock readings of the harness.",
             "DESIGN.md 4/C05, Appendix A"),
+    "C03": ("property-based testing (rapid) over request pipelines x chunkings x handler scripts on a scripted in-memory connection; oracle = strict frame decoder + reply-before-blocking invariant at every transport read + watchdog",
+            "Generated pipelines (every registered command with valid, invalid, missing, surplus and option arguments, unknown names, QUIT anywhere) are delivered in generated chunkings through the real connection loop; the harness owns every Read, so at each moment the server asks for undelivered bytes it checks that every fully delivered request has been answered, then that the output is exactly one frame per request in order. Exploration: pipelines and chunkings are unbounded.",
+            "Liveness is approximated: a stall verdict needs the loop not to return within 30s AND two goroutine dumps showing the connection goroutine busy outside the transport. Count-like arguments are bounded to 10^6 in-process.",
+            "DESIGN.md 4/C03"),
+    "C04": ("property-based testing (rapid) + native fuzzing: hostile client streams x scripted handler results, oracle = independent strict RESP2 decoder over the whole output",
+            "Client streams of every RESP type with CR/LF and forged frames in every client-controlled position, and handler results of every shape (arbitrary trees, nil, errors with arbitrary text), against both a scripted handler and the bundled example store; everything written must decode into exactly one canonical frame per request. Exploration over an unbounded input space.",
+            "Integer replies are generated with valid decimal payloads only (a handler building ':abc' by hand is outside 'valid RESP value'); QUIT is not generated here (C03 covers it).",
+            "DESIGN.md 4/C04"),
+    "C10": ("complete enumeration of a table of ill-formed request shapes derived from a positional command schema + random variation (rapid); oracle = error reply, zero handler calls attributed to the request, probe request answered normally",
+            "Every ill-formed shape the property lists is generated systematically for every command (omitted positions, nulls, non-numeric/overflowing/fractional tokens, dangling halves, exclusive SET options, non-positive expiries) and each is followed by a probe request; the enumeration of the table is complete, letter case and argument contents are randomised on top.",
+            "Handler calls are attributed to requests by the number of complete reply frames on the connection at call time. Surplus arguments and negative counts are not in the property's list and are not asserted.",
+            "DESIGN.md 4/C10"),
+    "C11": ("exhaustive crash-point enumeration per generated pipeline (every byte offset x half/full close), differential oracle against the same server fed only the complete requests",
+            "For each generated pipeline of well-formed requests the stream is cut at every byte offset, with half-close and full close; handler calls and replies must equal those produced by the completely delivered requests alone, and the loop must return, close the connection and leave the registry. The cut points of a pipeline are enumerated completely; pipelines are sampled.",
+            "VerifServeConn is synchronous, so its return is the end of the connection goroutine's work. Order of handler calls inside one request (Go map iteration in MSET/HMSET) is not compared.",
+            "DESIGN.md 4/C11"),
+    "C20": ("property-based testing (rapid) over pipelines x cut points x auth state with a recording tracer double; oracle = well-nestedness invariants over a sequence-numbered event log",
+            "The C03/C10 pipelines, optionally cut anywhere and optionally under a required password, are served with a tracer double whose span contexts are go-tracing's own stack implementation; every span must be finished exactly once, nested in its parent, roots and siblings must not overlap, and every write/handler call must lie in exactly one root with at most one reply per root.",
+            "The tracer double stands for any tracer built on go-tracing's common span-context stack (as the bundled OpenTelemetry/OpenTracing adapters are).",
+            "DESIGN.md 4/C20"),
 }
 
 PENDING = {
